@@ -132,8 +132,8 @@ fn panic_class(msg: &str, data: &[u8]) -> &'static str {
 /// the RFC 3597 `\#` marker) can possibly be formed from its octets. The test
 /// over-approximates what the tokenizer could see: backslashes are dropped,
 /// `\DDD` is decoded, and mnemonics are searched as substrings.
-const SUPPORTED: [&str; 21] = ["A", "NS", "CNAME", "SOA", "PTR", "HINFO", "MX", "TXT", "SRV", "NAPTR",
-    "MB", "MD", "MF", "MG", "MR", "DNAME", "MINFO", "RP", "SSHFP", "TLSA", "OPENPGPKEY"];
+const SUPPORTED: [&str; 22] = ["A", "NS", "CNAME", "SOA", "PTR", "HINFO", "MX", "TXT", "SRV", "NAPTR",
+    "MB", "MD", "MF", "MG", "MR", "DNAME", "MINFO", "RP", "SSHFP", "TLSA", "OPENPGPKEY", "NSEC3PARAM"];
 
 struct Elig { unsupported: Vec<Vec<u8>> }
 impl Elig {
@@ -166,6 +166,36 @@ impl Elig {
     }
 }
 
+
+
+// ------------------------------------------------------------ Symbol (T2)
+
+fn sym_case(out: &mut Out, data: &[u8], kind: &str) {
+    use domain::base::scan::Symbol;
+    let c = format!("sym {}", hex(data));
+    out.begin(&c);
+    let d = data.to_vec();
+    let r = catch(move || match Symbol::from_slice_index(&d, 0) {
+        Ok(None) => "End".to_string(),
+        Err(_) => "Err".to_string(),
+        Ok(Some((sy, end))) => {
+            let show = match sy {
+                Symbol::Char(ch) => format!("c{:x}", ch as u32),
+                Symbol::SimpleEscape(b) => format!("s{:x}", b),
+                Symbol::DecimalEscape(b) => format!("d{:x}", b),
+            };
+            let o = sy.into_octet().map(|b| format!("{:x}", b)).unwrap_or("-".into());
+            let a = sy.into_ascii().map(|b| format!("{:x}", b)).unwrap_or("-".into());
+            let ch = sy.into_char().map(|b| format!("{:x}", b as u32)).unwrap_or("-".into());
+            let g = sy.into_digit(10).map(|b| format!("{:x}", b)).unwrap_or("-".into());
+            format!("Ok {} {} w{} o{} a{} c{} g{}", show, end, if sy.is_word_char() { 1 } else { 0 }, o, a, ch, g)
+        }
+    });
+    match r {
+        Ok(o) => { out.case(&c, &o, o.starts_with("Ok"), kind); out.check(true, "panic_symbol", &c, ""); }
+        Err(m) => { out.case(&c, "PANIC", false, kind); out.check(false, "panic_symbol", &c, &m); }
+    }
+}
 
 // ------------------------------------------------ zonetree::parsed conversion
 //
@@ -235,14 +265,17 @@ impl ParsedChild {
     fn kill(mut self) { let _ = self.proc_.kill(); let _ = self.proc_.wait(); }
 }
 
-struct ParsedOracle { child: Option<ParsedChild>, skipped: u64 }
+struct ParsedOracle { child: Option<ParsedChild>, skipped: u64, no_answer: u64 }
 
 impl ParsedOracle {
-    fn new() -> ParsedOracle { ParsedOracle { child: ParsedChild::spawn(), skipped: 0 } }
+    fn new() -> ParsedOracle { ParsedOracle { child: ParsedChild::spawn(), skipped: 0, no_answer: 0 } }
     /// One conversion. A missing answer is only reported after a fresh child
-    /// given two minutes fails on the same input as well.
+    /// given a minute fails on the same input as well.
     fn run(&mut self, out: &mut Out, data: &[u8]) {
         let c = format!("parsed {}", hex(data));
+        // three inputs without an answer are evidence enough; every further one
+        // would cost minutes of waiting
+        if self.no_answer >= 3 { self.skipped += 1; out.count("parsed_skipped_after_3_without_answer"); return; }
         if self.child.is_none() { self.child = ParsedChild::spawn(); }
         let mut ch = match self.child.take() { Some(c) => c, None => { self.skipped += 1; out.count("parsed_skipped_no_child"); return; } };
         match ch.ask(data, 10) {
@@ -250,11 +283,11 @@ impl ParsedOracle {
             first => {
                 ch.kill();
                 let mut ch2 = match ParsedChild::spawn() { Some(c) => c, None => { self.skipped += 1; out.count("parsed_skipped_no_child"); return; } };
-                match ch2.ask(data, 120) {
+                match ch2.ask(data, 60) {
                     Ask::Answer(a) => { self.child = Some(ch2); self.verdict(out, &c, &a); }
-                    Ask::Timeout => { ch2.kill(); out.check(false, "parsed_zonefile_hang", &c, "no answer within 10 s and, in a fresh process, within 120 s"); }
+                    Ask::Timeout => { ch2.kill(); self.no_answer += 1; out.check(false, "parsed_zonefile_hang", &c, "no answer within 10 s and, in a fresh process, within 60 s"); }
                     Ask::Died => {
-                        ch2.kill();
+                        ch2.kill(); self.no_answer += 1;
                         let what = if matches!(first, Ask::Timeout) { "no answer within 10 s, then the fresh process died" } else { "the process died twice on this input (abort, stack overflow or the 4 GB address space limit)" };
                         out.check(false, "parsed_zonefile_crash", &c, what);
                     }
@@ -642,7 +675,7 @@ fn gen_zone_of(r: &mut Rng, model_types: bool) -> Vec<Item> {
         let ttl = *r.pick(&[0u32, 60, 300, 300, 3600, 3600, 86400, 2147483647]);
         let plain = r.chance(3, 4);
         let nm = |r: &mut Rng| Field::Name(if r.chance(1, 6) { vec![] } else if r.chance(1, 5) { origin.clone() } else { gen_name(r, &origin, plain) });
-        let pickt = if model_types { *r.pick(&[0u64, 2, 3, 4, 5, 6, 7, 7, 8, 9, 10, 12, 13, 13, 14, 15, 16, 16, 17, 18, 18]) } else { r.below(19) };
+        let pickt = if model_types { *r.pick(&[0u64, 2, 3, 4, 5, 6, 7, 7, 8, 9, 10, 12, 13, 13, 14, 15, 16, 16, 17, 18, 18, 19, 19]) } else { r.below(20) };
         let (rtype, fields): (&'static str, Vec<Field>) = match pickt {
             0 => ("A", vec![Field::Word(format!("{}.{}.{}.{}", r.below(256), r.below(256), r.below(256), r.below(256)))]),
             1 => ("AAAA", vec![Field::Word(r.pick(&["2001:db8::1", "::", "::1", "fe80::1:2:3:4", "1:2:3:4:5:6:7:8", "::ffff:192.0.2.1"]).to_string())]),
@@ -662,7 +695,11 @@ fn gen_zone_of(r: &mut Rng, model_types: bool) -> Vec<Item> {
             15 => ("RP", vec![nm(r), nm(r)]),
             16 => { let mut f = vec![Field::Int(r.below(256)), Field::Int(r.below(256)), Field::Int(r.below(256))]; f.extend(hex_words(r)); ("TLSA", f) }
             17 => (*r.pick(&["MB", "MD", "MF", "MG", "MR"]), vec![nm(r)]),
-            _ => ("OPENPGPKEY", b64_words(r)),
+            18 => ("OPENPGPKEY", b64_words(r)),
+            _ => {
+                let salt = if r.chance(1, 4) { "-".to_string() } else { let n = 1 + r.below(6) as usize; (0..2 * n).map(|_| *r.pick(b"0123456789abcdefABCDEF") as char).collect() };
+                ("NSEC3PARAM", vec![Field::Int(r.below(256)), Field::Int(r.below(256)), Field::Int(r.below(65536)), Field::Word(salt)])
+            }
         };
         items.push(Item::Rec(Rec { owner: owner.clone(), ttl, rtype, fields }));
     }
@@ -743,6 +780,8 @@ fn main() {
         b"a. 1 IN DS 1 1 1 \xC0\xA0\n", b"a. 1 IN SSHFP 1 1 \xC0\xA0\n", b"a. 1 IN SSHFP 1 1 ab c\n", b"a. 1 IN SSHFP 1 1 a (\n b ) ; x\n",
         b"a. 1 IN A \\# 4 01 02 0304\n", b"a. 1 IN A \\# 3 01020304\n", b"a. 1 IN TXT \\# 0\n", b"a. 1 IN TXT \\#\n", b"a. 1 IN TXT \\#x\n",
         b"a. 1 IN MX \\# 65536 00\n", b"a. 1 IN MX \\#\nb. 1 IN A 1.2.3.4\n", b"a. 1 IN MX \"\\#\" 1 00\n", b"a. 1 IN MX \\#( 1 00 )\n",
+        b"a. 1 IN NSEC3PARAM 1 0 10 aabb\n", b"a. 1 IN NSEC3PARAM 1 0 10 -\n", b"a. 1 IN NSEC3PARAM 1 0 10 -a\n", b"a. 1 IN NSEC3PARAM 1 0 10 abc\n", b"a. 1 IN NSEC3PARAM 1 0 10 \"aa\"bb\n",
+        b"a. 1 IN NSEC3PARAM 1 0 10 a\\098\n", b"a. 1 IN NSEC3PARAM 1 0 10 \\-\n", b"a. 1 IN NSEC3PARAM 256 0 10 aa\n", b"a. 1 IN NSEC3PARAM 1 0 10 aa", b"a. 1 IN NSEC3PARAM 1 0 10\n",
         b"a. 1 IN OPENPGPKEY AQID\n", b"a. 1 IN OPENPGPKEY AQ== x\n", b"a. 1 IN OPENPGPKEY AQI\n", b"a. 1 IN OPENPGPKEY A=ID\n", b"a. 1 IN OPENPGPKEY AQ (\n ID ) \n",
         b"a. 1 IN OPENPGPKEY\n", b"a. 1 IN OPENPGPKEY A\\081ID BA\\=\\=\n", b"a. 1 IN OPENPGPKEY A\xC3\xA9ID\n",
         b"a. 1 IN SSHFP 1 1\n", b"a. 1 IN SSHFP 256 1 ab\n", b"a. 1 IN SSHFP +1 01 \"ab\" \\097b\n", b"a. 1 IN TLSA 1 1 1 abg\n", b"a. 1 IN TLSA 1 1 1 ab",
@@ -756,6 +795,22 @@ fn main() {
     let el = Elig::new();
     let mut po = ParsedOracle::new();
     for c in &corpus { totality(&mut out, &el, &mut po, "corpus", c); }
+
+    // ---- Symbol::from_slice_index and the conversions: every single octet, every
+    //      `\\c`, every `\\DDD`, truncations, UTF-8 of every length (valid, over-long,
+    //      surrogates, beyond U+10FFFF, broken continuation)
+    for b in 0..=255u8 { sym_case(&mut out, &[b], "sym_octet"); sym_case(&mut out, &[b'\\', b], "sym_escape"); sym_case(&mut out, &[b'\\', b, b'x'], "sym_escape"); }
+    for v in 0..1000u32 { let t = format!("\\{:03}", v); sym_case(&mut out, t.as_bytes(), "sym_decimal"); }
+    for v in 0..100u32 { let t = format!("\\{:02}", v); sym_case(&mut out, t.as_bytes(), "sym_decimal"); let t = format!("\\{:02}x", v); sym_case(&mut out, t.as_bytes(), "sym_decimal"); }
+    for cp in [0x7Fu32, 0x80, 0x7FF, 0x800, 0xFFFF, 0x10000, 0x10FFFF, 0xD7FF, 0xE000, 0x20AC, 0xE9] {
+        if let Some(ch) = char::from_u32(cp) { let mut b = [0u8; 4]; let e = ch.encode_utf8(&mut b).len(); sym_case(&mut out, &b[..e], "sym_utf8"); for k in 1..e { sym_case(&mut out, &b[..k], "sym_utf8"); } }
+    }
+    for _ in 0..1500 * scale {
+        let lead = *r.pick(&[0xC0u8, 0xC1, 0xC2, 0xDF, 0xE0, 0xE1, 0xED, 0xEF, 0xF0, 0xF1, 0xF4, 0xF5, 0xF8, 0xFF, 0x80, 0xBF]);
+        let mut d = vec![lead];
+        for _ in 0..r.below(4) { d.push(match r.below(5) { 0 => r.u8(), 1 => 0x80, 2 => 0xBF, 3 => 0x80 + r.below(64) as u8, _ => 0x9F + r.below(3) as u8 }); }
+        sym_case(&mut out, &d, "sym_utf8");
+    }
 
     // ---- (a) totality fuzz
     let mnem = all_mnemonics();
